@@ -64,6 +64,7 @@ type c11Result struct {
 	ID         string                   `json:"id"`
 	Obs        []c11Obs                 `json:"obs"`
 	Unrealised string                   `json:"unrealised,omitempty"`
+	Stuck      string                   `json:"stuck,omitempty"` // an operation of the peer that the model always admits did not complete
 	EOF        map[string]bool          `json:"eof"`
 	Probe      *c11Obs                  `json:"probe,omitempty"`
 	Trace      []map[string]interface{} `json:"trace"`
@@ -259,8 +260,28 @@ func c11RunSchedule(s c11Schedule) (res c11Result) {
 				ctl.Pass(st.Arg, "h.firstflush")
 			}
 			r.ev(map[string]interface{}{"e": "open", "c": st.Arg})
-			stream, err := peer.OpenSSE(ctx, http.MethodGet, r.url, map[string]string{
-				"Accept": "text/event-stream", "Mcp-Session-Id": sid, "X-Verif-Conn": st.Arg}, nil)
+			type opened struct {
+				st  *peer.Stream
+				err error
+			}
+			och := make(chan opened, 1)
+			go func(arg string) {
+				st, err := peer.OpenSSE(ctx, http.MethodGet, r.url, map[string]string{
+					"Accept": "text/event-stream", "Mcp-Session-Id": sid, "X-Verif-Conn": arg}, nil)
+				och <- opened{st, err}
+			}(st.Arg)
+			var stream *peer.Stream
+			var err error
+			select {
+			case o := <-och:
+				stream, err = o.st, o.err
+			case <-time.After(c11Wait):
+				// nothing a send or an older stream does may keep a new stream from being opened (GetStream: Open is always enabled)
+				res.Stuck = fmt.Sprintf("step %d open(%s): no response headers within %v; parked=%v", i, st.Arg, c11Wait, ctl.ParkedList())
+				res.Obs = append(res.Obs, c11Obs{Op: "open", Arg: st.Arg, Err: "no response headers"})
+				res.Trace = r.trace
+				return
+			}
 			if err != nil {
 				fail("GET failed: " + err.Error())
 				return
